@@ -4,6 +4,7 @@ RecvAlphabet == {"CB", "JUP", "UNK", "START3", "START2", "END3", "END2", "W3", "
 FlashAlphabet == {"CB", "SFL2_0", "SFL2_1", "SFL2_2", "SFL2_3", "SFL2_4", "EFL2", "EFL1", "EFL1X2", "BIGB2", "REPALL2", "DEP1", "CSFL2", "CEFL2", "START2"}
 Flash3Alphabet == {"SFL3_1", "SFL3_2", "SFL3_3", "SFL3_4", "EFL3", "LIQ3", "DEPBIG3", "START3", "END3"}
 Recv2Alphabet == {"CB", "START3", "START4", "END3", "END4", "W3", "R3", "W4", "R4"}
+Recv3Alphabet == {"CB", "KREF", "DREF", "KOTH", "JREF", "START3", "END3", "W3", "R3", "INITREC"}
 NeedStart == {"START3"}
 NeedStart34 == {"START3", "START4"}
 NeedSfl == {"SFL2_0", "SFL2_1", "SFL2_2", "SFL2_3", "SFL2_4"}
